@@ -202,6 +202,19 @@ func (q *rbH) step(a rcAct) (skip string) {
 		h.h.mu.Unlock()
 		close(g)
 		q.held, q.full = "no", false
+	case "Stall":
+		// the application stays stuck for longer than the message channel time-out: the message loop's enqueue times out, item by item
+		if !q.full || q.held != "in" {
+			return "not enabled"
+		}
+		time.Sleep(10 * rcMsgTimeoutCfg)
+		last, since := h.c.NextMessageID(), time.Now()
+		for dl := time.Now().Add(20 * rcMsgTimeoutCfg); time.Now().Before(dl) && time.Since(since) < 4*rcMsgTimeoutCfg; time.Sleep(5 * time.Millisecond) {
+			if cur := h.c.NextMessageID(); cur != last {
+				last, since = cur, time.Now()
+			}
+		}
+		return ""
 	case "Teardown":
 		h.conn.Close()
 		h.gate.set(false, true)
@@ -266,14 +279,23 @@ func (q *rbH) project() rbSt {
 	return st
 }
 
+// TestVerifBacklogStall: the same driver with a message channel time-out of 400 ms, so that a Stall step can wait it out (F43).
+func TestVerifBacklogStall(t *testing.T) {
+	rbReplay(t, 400*time.Millisecond)
+}
+
 func TestVerifReplayReceiveBacklog(t *testing.T) {
+	rbReplay(t, 60*time.Second)
+}
+
+func rbReplay(t *testing.T, msgTimeout time.Duration) {
 	verifHook = func(point string) {
 		if point == "conn.teardown" {
 			time.Sleep(5 * time.Millisecond)
 		}
 	}
 	rcRetryDelay = 1500 * time.Millisecond
-	rcMsgTimeoutCfg = 60 * time.Second
+	rcMsgTimeoutCfg = msgTimeout
 	var in struct {
 		Scripts []struct {
 			ID    string  `json:"id"`
